@@ -128,6 +128,7 @@ ContentOfBatch(b, mode) ==
     fields |-> FieldsOfBatch(b),
     dvMin  |-> dvf,
     dvMax  |-> dvf,
+    dvx    |-> dvf,
     mode   |-> mode,
     prov   |-> "built" ]
 
@@ -258,6 +259,10 @@ MergedContent(cs, Ds, mode) ==
         fields |-> IF uf = {} THEN <<>> ELSE <<IDName>> \o SortBytes(uf \ {IDName}),
         dvMin  |-> DvData(docs),
         dvMax  |-> UNION { cs[k].dvMax : k \in 1..Len(cs) },
+        \* exactly: the merger looks at an input for a field only if the input has a dictionary for it (at least
+        \* one term, whatever the deletions); the field keeps its doc-value section when such an input had one
+        dvx    |-> { f \in UNION { cs[k].dvx : k \in 1..Len(cs) } :
+                       \E k \in 1..Len(cs) : f \in cs[k].dvx /\ TermsOf(cs[k], f) # {} },
         mode   |-> mode,
         prov   |-> "merged" ]
 
